@@ -226,7 +226,82 @@ func redefBlock() fam {
 	return fam{"redef", ps, []any{nil, []any{1, 2}}, []any{"i1", "i2"}}
 }
 
+// pattern: compilePattern / compileBind — destructuring of every shape against matching, too short, too long and
+// wrongly typed data; repeated and shadowed variables; computed keys; patterns in reduce / foreach / function bodies
+func patternBlock() fam {
+	pats := []string{
+		"$a", "[$a]", "[$a, $b]", "[$a, [$b, $c]]", "[[$a]]", "[$a, $a]", "[$a, {b: $b}]", "{a: $a}", "{$a}", "{a: $a, b: $b}", "{a: {b: $b}}", "{a: [$x, $y]}", "{$a, b: [$b]}", "{\"a\": $a}", "{\"a b\": $a}", "{(\"a\"): $a}", "{(\"a\", \"b\"): $a}", "{\"\\(\"a\")\": $a}",
+		"{a: $x, b: $x}", "{$a, $b, c: {$d}}", "[{a: $a}, {a: $b}]", "{a: $a, a: $b}", "[$a, $b, $c, $d]", "{$__loc__}", "{a: [[$a]]}", "[{$a}]", "{(.k // \"a\"): $a}", "{$a, ($a | tostring): $b}",
+	}
+	bodies := []string{"[%v]", "%v0", "[%v] | length", "[%v] | map(type)", "try ([%v] | add) catch \"A\""}
+	varsOf := func(p string) []string {
+		var vs []string
+		seen := map[string]bool{}
+		for i := 0; i < len(p); i++ {
+			if p[i] == '$' && i+1 < len(p) && p[i+1] != '_' {
+				j := i + 1
+				for j < len(p) && (p[j] >= 'a' && p[j] <= 'z') {
+					j++
+				}
+				if v := p[i:j]; len(v) > 1 && !seen[v] {
+					seen[v] = true
+					vs = append(vs, v)
+				}
+			}
+		}
+		return vs
+	}
+	var ps []string
+	for i, p := range pats {
+		vs := varsOf(p)
+		if len(vs) == 0 {
+			continue
+		}
+		all := strings.Join(vs, ", ")
+		for j, b := range bodies {
+			if j > 0 && (i+j)%3 != 0 {
+				continue
+			}
+			body := strings.ReplaceAll(strings.ReplaceAll(b, "%v0", vs[0]), "%v", all)
+			ps = append(ps, ". as "+p+" | "+body, "[.[]? as "+p+" | "+body+"]", "try (. as "+p+" | "+body+") catch \"P\"")
+		}
+		ps = append(ps,
+			"reduce .[]? as "+p+" (0; . + 1)", "[foreach .[]? as "+p+" (0; . + 1; ["+all+"])]?", "def f: . as "+p+" | ["+all+"]; [.[]? | f]?", "[. as "+p+" | "+vs[0]+", (1 as "+vs[0]+" | "+vs[0]+"), "+vs[0]+"]?",
+			". as "+p+" ?// $z | ["+all+", $z]", "[.[]? as "+p+" ?// $z | [$z]]", "path(. as "+p+" | .)?", "(. as "+p+" | "+vs[0]+") as $w | [$w]?")
+	}
+	ps = append(ps,
+		". as [$a] | . as [$b, $c] | [$a, $b, $c]", ". as [$a] | [$a] as [$b] | $b", ". as $x | $x as [$a] | $a", "[1, 2] as [$a, $b] | {$a, $b}", "{a: 1} as {a: $a} | [$a] as [$b] | $b", "[[1, 2], [3, 4]] as [[$a, $b], [$c, $d]] | [$a, $b, $c, $d]", "[1] as [$a, $b] | [$a, $b]", "[] as [$a] | $a", "null as [$a] | $a", "null as {a: $a} | $a",
+		"try (1 as [$a] | $a) catch \"T\"", "try (\"s\" as {a: $a} | $a) catch \"T\"", "try ({} as [$a] | $a) catch \"T\"", "try ([] as {a: $a} | $a) catch \"T\"", "try ([1] as {a: $a} | $a) catch \"T\"", "[[1], 2, {a: 3}] | [.[] as [$a] ?// {a: $a} ?// $a | $a]", "[.[]? as [$a] | $a]?", "(.[]? // []) as [$a] | [$a]",
+		"[1, 2, 3] as [$a] | $a", "[1, 2, 3] as [$a, $b] | $b", "{a: 1, b: 2} as {a: $a} | $a", "{a: 1} as {b: $b} | $b", "{a: {b: 1}} as {a: {b: $b}} | $b", "{a: 1} as {a: {b: $b}} | $b?", "try ({a: 1} as {a: {b: $b}} | $b) catch \"T\"", "{a: [1]} as {a: [$x]} | $x", "[{a: 1}] as [{a: $x}] | $x",
+		"{k: \"a\", a: 5} as {k: $k} | . as {($k): $v} | $v?", "{k: \"a\", a: 5} | . as {k: $k, ($k): $v} | [$k, $v]?", "{a: 5} as {(\"a\", \"b\"): $v} | [$v]", "[{(\"a\", \"b\"): 1}] | .[] as {a: $x} | $x", "{a: 5} as {\"\\(\"a\")\": $v} | $v", "{ab: 5} as {\"a\\(\"b\")\": $v} | $v", "{a: 5} as {$a} | {a: 6} as {$a} | $a", "1 as $x | [2 as $x | $x, $x] | [., $x]",
+		"def f($a): . as [$a] | $a; [5] | f(1)", "def f(a): . as [$a] | [$a, a]; [5] | f(7)", "[5] as [$a] | def f: $a; [6] as [$a] | [f, $a]", "reduce ([1, 2], [3, 4]) as [$a, $b] ([]; . + [$a * $b])", "[foreach ([1, 2], [3, 4]) as [$a, $b] (0; . + $a; [., $b])]", "reduce ({a: 1}, {a: 2}) as {a: $x} (0; . + $x)", "[limit(2; ([1], [2], [3]) as [$a] | $a)]", "first(([1], [2]) as [$a] | $a)",
+		"[[1, 2]] | .[] as [$a, $b] | [$b, $a]", ". as [$a, $b] | {a: $a, b: $b}?", "[.[]? as {a: $a} | $a]?", "to_entries[]? as {key: $k, value: $v} | [$k, $v]", "[paths as [$h] | $h]?", "[.[]? as [$h, $t] | [$t, $h]]?", ". as [$a, $b, {c: $c}] | [$a, $b, $c]?", ". as {a: [$a, {b: $b}]} | [$a, $b]?")
+	ins := []any{
+		[]any{1, []any{2, 3}}, []any{[]any{1}, map[string]any{"b": 2}}, map[string]any{"a": 1, "b": []any{2}, "c": map[string]any{"d": 3}}, map[string]any{"a": map[string]any{"b": 1}, "k": "a"}, map[string]any{"a": []any{4, 5}, "a b": 6},
+		[]any{map[string]any{"a": 1}, map[string]any{"a": 2}}, []any{}, map[string]any{}, nil, 7, "s", []any{1, 2, 3, 4, 5},
+	}
+	return fam{"pattern", ps, ins, nil}
+}
+
+// labels: break across function and closure boundaries, recursion, nested and shadowed labels, labels under every
+// construct that catches or resumes (try, ?, //, ?//, first/limit, reduce/foreach, paths)
+func labelBlock() fam {
+	ps := []string{
+		"label $l | def f: break $l; f", "label $l | def f: 1, break $l, 2; [f]", "[label $l | def f: 1, break $l, 2; f, 3]", "def g(x): x; label $l | g(break $l)", "def g(x): 1, x, 2; [label $l | g(break $l)]", "def g(x): [x]; label $l | g(1, break $l)", "def g(x): x | x; [label $l | 1 | g(., break $l)]",
+		"def f: label $l | if . < 3 then (. + 1 | f), break $l else . end; [0 | f]", "def f: label $l | if . < 3 then ., (. + 1 | f), break $l, 99 else . end; [0 | f]", "def f(x): label $l | x, break $l; [f(1, 2)]", "def f(x): label $l | (x | ., break $l); [f(1, 2)]", "def f: label $l | ., break $l; [(1, 2) | f]", "def f: label $l | (., break $l), 9; [(1, 2) | f]",
+		"[label $a | label $b | 1, break $a, 2]", "[label $a | (label $b | 1, break $b, 2), 3, break $a, 4]", "[label $a | label $a | 1, break $a, 2]", "[label $a | (label $a | 1, break $a, 2), 3]", "[label $a | 1, (label $b | 2, break $a), 3]", "[label $a | def f: break $a; label $a | f, 1]", "[label $a | def f: break $a; (label $a | 1, f), 2]", "label $a | label $b | label $c | break $a",
+		"[label $l | try (1, break $l, 2) catch 3]", "[label $l | (1, break $l, 2)?]", "[label $l | (break $l) // 1]", "[label $l | (null, break $l) // 1]", "[label $l | (1, break $l) // 2]", "[label $l | . as [$a] ?// $a | 1, break $l]", "[label $l | first(1, break $l)]", "[label $l | first(break $l, 1)]", "[label $l | limit(2; 1, break $l, 2)]", "[label $l | limit(1; 1, break $l)]", "[first(label $l | 1, break $l, 2)]",
+		"[label $l | reduce (1, 2, 3) as $x (0; if $x == 2 then break $l else . + $x end)]", "[label $l | foreach (1, 2, 3) as $x (0; . + $x; if . > 2 then ., break $l else . end)]", "[label $l | foreach (1, 2, 3) as $x (0; if $x == 3 then break $l else . + $x end)]", "reduce (1, 2) as $x (0; label $l | . + $x, break $l)", "[foreach (1, 2) as $x (0; label $l | (. + $x, break $l); [$x, .])]",
+		"[label $l | path(.a, break $l, .b)]", "[path(label $l | .a, break $l, .b)]", "[label $l | paths | ., break $l]", "label $l | (.a, break $l) = 1", "[label $l | (.a, .b) |= (., break $l)]?", "[label $l | del(.a, break $l)]?", "[label $l | to_entries[]? | ., break $l]",
+		"[label $l | .[]? | if . == null then break $l else . end]", "[.[]? | label $l | if . == null then break $l else ., 0 end]", "[label $l | .[]? | label $m | if . == null then break $l elif . == 2 then break $m else . end]", "[label $l | (.[]?, 9) | select(. != null) | if . == 9 then break $l else . end]", "[label $l | range(10) | if . > 2 then break $l else . end]", "[label $l | repeat(1) | ., break $l]", "[limit(3; label $l | repeat(1))]",
+		"[label $l | \"a\\(1, break $l)\"]", "[label $l | {a: (1, break $l)}]", "[label $l | [1, break $l]]", "[label $l | (1, break $l) + 1]", "[label $l | 1 + (2, break $l)]", "[label $l | (1, break $l) as $x | $x]", "[label $l | if (true, break $l) then 1 else 2 end]", "[label $l | if true then (1, break $l) else 2 end]", "[label $l | .[(0, break $l)]?]", "[label $l | -(1, break $l)]",
+		"try (break $l) catch .", "try (label $l | error(\"x\")) catch .", "[label $l | try error(\"x\") catch (., break $l)]", "[label $l | (error(\"x\"))?, 1, break $l]", "label $l | try (break $l) catch \"not-an-error\"", "[label $l | 1, (try break $l catch 2), 3]", "[(label $l | 1, break $l), (label $l | 2, break $l)]", "[label $l | 1] + [label $l | 2, break $l]", "def f: label $l | 1; [f, f]", "[range(3) | label $l | ., break $l]",
+		"[label $l | input, break $l]", "[label $l | inputs | ., break $l], [inputs]", "[label $l | (1, 2) | (., break $l)]", "[label $l | (1, 2) | (label $l | ., break $l)]", "[label $out | foreach .[]? as $item (0; . + 1; $item, if . >= 2 then break $out else empty end)]", "[label $out | .[]? | ., break $out]", "isempty(label $l | 1, break $l)", "[label $l | isempty(break $l)]",
+	}
+	return fam{"label", ps, []any{nil, []any{1, nil, 2, 3}, map[string]any{"a": 1, "b": 2}, 0}, []any{"i1", "i2"}}
+}
+
 // the deterministic blocks, in the order they run
 func firstBlocks() []fam {
-	return []fam{regressBlock(), scopeBlock(), calleeBlock(), boundaryBlock(), markerBlock(), optBlock(), redefBlock()}
+	return []fam{regressBlock(), scopeBlock(), calleeBlock(), boundaryBlock(), markerBlock(), optBlock(), redefBlock(), patternBlock(), labelBlock()}
 }
